@@ -136,9 +136,9 @@ def runData (toks : List String) : String := Id.run do
     successive read() calls returned on the real run (bytes, 0 = EOF, -11 = EAGAIN, other negative = -errno);
     the payload byte at stream position p is p % 251. Output: requested length and result of every read(), then the
     handler calls — both must equal what the real library did. -/
-def runIo (length low high : Option Nat) (rets : List Int) : String := Id.run do
+def runIo (length low high : Option Nat) (rets : List Int) (chunk : Nat := 1048576) : String := Id.run do
   -- channel parameters as set by dispatch_io_set_high_water then dispatch_io_set_low_water
-  let mut lo := 1048576
+  let mut lo := chunk       -- dispatch_io_defaults.low_water_chunks (1) * chunk_size
   let mut hi : Nat := 18446744073709551615
   if let some h := high then
     if lo > h then lo := h
@@ -146,7 +146,7 @@ def runIo (length low high : Option Nat) (rets : List Int) : String := Id.run do
   if let some l := low then
     if hi < l then hi := if l = 0 then 1 else l
     lo := l
-  let mut op : IoP.Op := { length := length, low := lo, high := hi, chunk := 1048576 }
+  let mut op : IoP.Op := { length := length, low := lo, high := hi, chunk := chunk }
   let mut pos := 0
   let mut reads : List String := []
   let mut calls : List IoP.Call := []
@@ -202,6 +202,7 @@ def handle (line : String) : String :=
   | ["X2", fi, fo, spec] => transform fi fo spec
   | "X" :: toks => runData toks
   | "IO" :: len :: low :: high :: rets => runIo (optNat len) (optNat low) (optNat high) (rets.map (·.toInt!))
+  | "IOC" :: chunk :: len :: low :: high :: rets => runIo (optNat len) (optNat low) (optNat high) (rets.map (·.toInt!)) chunk.toNat!
   | ["CM", t, d, i, n, p] =>
     let o := TimerP.computeMissed t.toNat! d.toNat! i.toNat! n.toNat! p.toNat!
     s!"{o.data} {o.target} {o.deadline}"
